@@ -51,7 +51,7 @@ from .ast_nodes import (
 )
 from .opcodes import OpCode
 from .values import UNDEFINED
-from .errors import JSError
+from .errors import JSError, JSSyntaxError
 
 
 @dataclass
@@ -175,6 +175,12 @@ class Compiler:
         """Set current source location from an AST node."""
         if node.loc is not None:
             self._current_loc = (node.loc.line, node.loc.column)
+
+    def _syntax_error(self, message: str, node: Node) -> JSSyntaxError:
+        """Create a syntax error located at an AST node."""
+        if node.loc is not None:
+            return JSSyntaxError(message, node.loc.line, node.loc.column)
+        return JSSyntaxError(message)
 
     def _emit_jump(self, opcode: OpCode) -> int:
         """Emit a jump instruction, return position for patching.
@@ -639,7 +645,7 @@ class Compiler:
 
         elif isinstance(node, BreakStatement):
             if not self.loop_stack:
-                raise SyntaxError("'break' outside of loop")
+                raise self._syntax_error("'break' outside of loop", node)
 
             # Find the right loop context (labeled or innermost loop/switch)
             target_label = node.label.name if node.label else None
@@ -660,9 +666,9 @@ class Compiler:
 
             if ctx is None:
                 if target_label:
-                    raise SyntaxError(f"label '{target_label}' not found")
+                    raise self._syntax_error(f"label '{target_label}' not found", node)
                 else:
-                    raise SyntaxError("'break' outside of loop")
+                    raise self._syntax_error("'break' outside of loop", node)
 
             # Emit pending finally blocks before the break
             self._emit_pending_finally_blocks()
@@ -672,7 +678,7 @@ class Compiler:
 
         elif isinstance(node, ContinueStatement):
             if not self.loop_stack:
-                raise SyntaxError("'continue' outside of loop")
+                raise self._syntax_error("'continue' outside of loop", node)
 
             # Find the right loop context (labeled or innermost loop, not switch)
             target_label = node.label.name if node.label else None
@@ -686,7 +692,7 @@ class Compiler:
                     break
 
             if ctx is None:
-                raise SyntaxError(f"label '{target_label}' not found")
+                raise self._syntax_error(f"label '{target_label}' not found", node)
 
             # Emit pending finally blocks before the continue
             self._emit_pending_finally_blocks()
